@@ -86,6 +86,22 @@ def programs(tier):
         "Range": {"type": "object", "properties": {"lo": {"type": "integer"}}},
         "List": {"type": "object", "properties": {"format": ref("Format"), "type": ref("Type"), "filter": ref("Filter"), "range": ref("Range"),
                                                    "formats": {"type": "array", "items": ref("Format")}}}}
+    # class names that CONTAIN the words the templates test for in rendered type strings (Unset, None), as members of required unions
+    shapes["class-names-containing-unset-none"] = {
+        "UnsettledTrade": {"type": "object", "properties": {"t": {"type": "integer"}}}, "NoneOrAll": {"type": "object", "properties": {"n": {"type": "string"}}},
+        "UnsetKind": {"type": "string", "enum": ["u1", "u2"]}, "NoneKind": {"type": "string", "enum": ["n1", "n2"]},
+        "Holder": {"type": "object", "required": ["trade", "scope", "kinds"], "properties": {
+            "trade": {"oneOf": [ref("UnsettledTrade"), {"type": "integer"}]}, "scope": {"anyOf": [ref("NoneOrAll"), ref("NoneKind")]},
+            "kinds": {"type": "array", "items": {"oneOf": [ref("UnsetKind"), ref("UnsettledTrade")]}},
+            "opt": {"oneOf": [ref("NoneOrAll"), {"type": "string", "format": "date"}]}},
+            "additionalProperties": {"oneOf": [ref("UnsettledTrade"), ref("NoneKind")]}}}
+    # COUNT: arrays nested three and four levels deep whose innermost items need a construct / transform loop
+    deep = lambda inner, n: inner if n == 0 else {"type": "array", "items": deep(inner, n - 1)}  # noqa: E731
+    shapes["arrays-nested-3-4-levels"] = {
+        "Cell": {"type": "object", "properties": {"c": {"type": "integer"}}}, "Mark": {"type": "string", "enum": ["m1", "m2"]},
+        "Grid": {"type": "object", "required": ["cells3"], "properties": {
+            "cells3": deep(ref("Cell"), 3), "days3": deep({"type": "string", "format": "date"}, 3), "marks3": deep(ref("Mark"), 3),
+            "mixed3": deep({"oneOf": [{"type": "integer"}, {"type": "string", "format": "date-time"}]}, 3), "cells4": deep(ref("Cell"), 4), "ints3": deep({"type": "integer"}, 3)}}}
     for name, comps in shapes.items():
         for lit in (False, True):
             out.append((f"s:{name}{'|lit' if lit else ''}", f"shape/{name}" + ("/lit" if lit else ""), gen.base_doc(comps), {"literal_enums": lit}, {"kind": "shape"}))
@@ -114,6 +130,17 @@ def programs(tier):
             for lit in ((False, True) if kname_.startswith(("enum", "array_enum")) else (False,)):
                 out.append((f"s:multi-use:{kname_}:{first}{'|lit' if lit else ''}", f"shape/multi-use/{kname_}" + ("/lit" if lit else ""),
                             gen.base_doc(comps, paths=paths), {"literal_enums": lit}, {"kind": "matrix"}))
+    # ... the same two shapes where an OPERATION uses them (response without optional parameters, body, required query parameter)
+    for name in ("class-names-containing-unset-none", "arrays-nested-3-4-levels"):
+        comps = copy.deepcopy(shapes[name])
+        if name.startswith("class"):
+            sch = {"oneOf": [ref("UnsettledTrade"), ref("NoneOrAll"), ref("NoneKind")]}
+        else:
+            sch = deep(ref("Cell"), 3)
+        paths = {"/r": {"get": {"operationId": "getR", "responses": {"200": {"description": "d", "content": {"application/json": {"schema": sch}}}}}},
+                 "/b": {"post": {"operationId": "postB", "requestBody": {"required": True, "content": {"application/json": {"schema": copy.deepcopy(sch)}}},
+                                 "responses": {"200": {"description": "d", "content": {"application/json": {"schema": {"type": "array", "items": copy.deepcopy(sch)}}}}}}}}
+        out.append((f"s:{name}:operations", f"shape/{name}/operations", gen.base_doc(comps, paths=paths), {}, {"kind": "shape"}))
     # response unions over several statuses
     out.append(("s:resp-union", "shape/resp-union", gen.base_doc(
         {"A": {"type": "object", "properties": {"a": {"type": "string"}}}, "B": {"type": "object", "properties": {"b": {"type": "integer"}}}},
